@@ -6,7 +6,7 @@ CALL_FILES = ["kvstore/kvstore.go", "kvstore/mapdb/mapdb.go", "kvstore/mapdb/syn
               "kvstore/debug/debug.go", "kvstore/utils/utils.go"]
 
 
-WRAP_FILES = ["kvstore/flushkv/flushkv.go", "kvstore/debug/debug.go"]
+WRAP_FILES = ["kvstore/flushkv/flushkv.go", "kvstore/debug/debug.go", "kvstore/kvstore.go", "kvstore/utils/utils.go"]
 
 
 def regen(ctx):
@@ -86,7 +86,7 @@ SPEC = {
                  "C04_wrapper_model_is_the_source_flushkv", "C04_wrapper_model_is_the_source_debug", "C04_wrapper_constructors_text",
                  "C04_trace_model_is_sem",
                  "C04_mapdb_model_is_the_source", "C04_mapdb_batch_model_is_the_source", "C04_mapdb_constructor_text",
-                 "C04_synced_map_model_is_the_source",
+                 "C04_synced_map_model_is_the_source", "C04_helper_functions_text",
                  "C04_calls_mapdb", "C04_calls_flushkv", "C04_calls_debug", "C04_calls_kvstore_utils", "C04_skeleton_types"],
     "trusted_base": [
         "model Hive/Model/KV.lean of kvstore/mapdb (+ flushkv, debug wrappers): its view / batch functions (dbGet ... dbCommit, the batch "
